@@ -468,6 +468,7 @@ func runInner(s *Script) (bool, *vt.Finding) {
 	if s.Cfg.NoQueue {
 		cS.Class("no-queue")
 	}
+	cS.Class("sizer:" + s.Cfg.Sizer)
 	cS.Class(fmt.Sprintf("persistent:%v", s.Cfg.Persistent), fmt.Sprintf("batch:%v", s.Cfg.Batch), fmt.Sprintf("retry:%v", s.Cfg.Retry), fmt.Sprintf("legacy-batcher:%v", s.Cfg.LegacyMax > 0))
 	total := 0
 	for _, r := range reqs {
@@ -532,6 +533,13 @@ func gen(t *rapid.T) Script {
 				c.MaxSize = rapid.IntRange(max(c.MinSize, 1), c.MinSize+8).Draw(t, "max")
 			}
 			c.FlushMS = rapid.SampledFrom([]int{5, 3600000, 3600000}).Draw(t, "flush")
+			if rapid.IntRange(0, 3).Draw(t, "bytes_sizer") == 0 {
+				// sizes in bytes: one item is about 30 bytes on top of a 10-byte envelope (a single item
+				// larger than max_size goes out alone)
+				c.Sizer = "bytes"
+				c.MinSize *= 25
+				c.MaxSize *= 25
+			}
 		} else {
 			c.Sizer = rapid.SampledFrom([]string{"requests", "items"}).Draw(t, "sizer")
 		}
